@@ -287,6 +287,7 @@ fn jwt_header(cfg_alg: &str, tok: &Value, cs: u64) -> String {
         "absent" => None,
         "none" => Some(["\"none\"", "\"None\"", "\"NONE\""][v].to_string()),
         "lower" => Some(format!("\"{}\"", cfg_alg.to_ascii_lowercase())),
+        "space" => Some([format!("\"{cfg_alg} \""), format!("\" {cfg_alg}\""), format!("\"{cfg_alg}\\u0000\"")][v].clone()),
         "num" => Some(cfg_alg[2..].to_string()),
         "null" => Some("null".to_string()),
         "arr" => Some(format!("[\"{cfg_alg}\"]")),
@@ -317,8 +318,17 @@ fn jwt_mutants(m: &str, h: &str, p: &str, sg: &str, macb: &[u8], cs: u64, reps: 
     let mut out = vec![];
     match m {
         "none" => out.push(t.clone()),
-        "flip1" | "flip2" | "flip3" => {
+        "flip1" | "flip2" | "flip3" | "flipall1" | "flipall2" | "flipall3" => {
             let k = part_of(m);
+            let all = m.starts_with("flipall");
+            if all {   // bytes outside the base64url alphabet, at every position
+                for i in 0..parts[k].len() { for c in [b'=', b'+', b'/', b'.', b' ', b'*', b'~'] {
+                    let mut x: Vec<String> = parts.iter().map(|s| s.to_string()).collect();
+                    let mut b = x[k].clone().into_bytes(); if b[i] == c { continue } b[i] = c; x[k] = String::from_utf8(b).unwrap();
+                    out.push(join(&x));
+                } }
+            }
+            let reps = if all { 63 } else { reps };   // 63 = every other symbol of the alphabet (13 is coprime to 63)
             for i in 0..parts[k].len() { for r in 0..reps {
                 let mut x: Vec<String> = parts.iter().map(|s| s.to_string()).collect();
                 let mut b = x[k].clone().into_bytes(); b[i] = other_char(b[i], cs.wrapping_mul(31).wrapping_add(i as u64 * 7 + r * 13)); x[k] = String::from_utf8(b).unwrap();
@@ -538,7 +548,7 @@ fn gen_jwt(rng: &mut Rng) -> Value {
     // mostly valid along every axis, so that a single deviating fact decides the row
     let mostly = |rng: &mut Rng, good: &'static str, all: &[&'static str]| if rng.chance(3, 4) { good } else { *rng.pick(all) };
     let salg = if rng.chance(3, 4) { alg } else { *rng.pick(ALGS) };
-    let halg = if rng.chance(3, 4) { alg } else { *rng.pick(&["HS256", "HS384", "HS512", "none", "absent", "lower", "num", "null", "arr"]) };
+    let halg = if rng.chance(3, 4) { alg } else { *rng.pick(&["HS256", "HS384", "HS512", "none", "absent", "lower", "space", "num", "null", "arr"]) };
     let pay = mostly(rng, "obj", &["obj", "nested", "arr", "str", "num", "notjson", "empty"]);
     let claims = matches!(pay, "obj" | "nested");
     let c = |rng: &mut Rng, ok: &'static str| if !claims { "absent" } else if rng.chance(2, 3) { *rng.pick(&["absent", ok]) } else { *rng.pick(CLAIM) };
